@@ -15,7 +15,7 @@ claimed = {
  "C04": ("sec 7", "no-pending-while-servable invariant by induction (Coq), differential correspondence incl. timer events",
   "Theorems C04_no_pending_while_servable_{positional,bound,filter}: after every API call and every internal event no request is waiting while the request next in line could be served. For the filter store time passing alone is excluded (age filter) and the store's own timer is shown to restore the invariant. The belt stores' put side is not covered by a theorem (their spacing gate is time driven); their get side and everything else is."),
  "C05": ("sec 7", "sortedness-by-(priority,arrival) invariant and head-is-minimum theorems (Coq), differential correspondence of trigger order",
-  "Theorems C05_queues_sorted_*, C05_{put,get}_grant_is_min_*: in every reachable state both waiting queues are strictly sorted by (priority, arrival number) and every grant removes the head, which precedes every other waiting request; stores without priorities use priority 0 for all (FCFS). PriorityReqStore (plain SimPy put/get requests) is not modelled yet -- partial for that class."),
+  "Theorems C05_queues_sorted_*, C05_{put,get}_grant_is_min_*: in every reachable state both waiting queues are strictly sorted by (priority, arrival number) and every grant removes the head, which precedes every other waiting request; stores without priorities use priority 0 for all (FCFS). PriorityReqStore (plain SimPy put/get requests with priorities, theories/Stores/StoreQ.v) likewise: C05_queues_sorted_priority_req_store, C05_grant_is_min_priority_req_store."),
  "C06": ("sec 7", "availability-order / binding-discipline theorems (Coq), differential correspondence of item identities",
   "Theorems C06_*: ready_items changes only by appending the newly available item or deleting the retrieved one; a grant binds the first (FIFO) / last (LIFO) unreserved item, for the filter store the first unreserved item satisfying the filter; cancelling a granted retrieval only unbinds (bound stores) / re-inserts the item ahead of all never-reserved items (positional stores). The factory-level corollary (FIRST_AVAILABLE nodes) is not covered yet."),
  "C07": ("sec 7", "ill-formed call => (same state, RuntimeError, nothing triggered) theorem (Coq), malformed-call stream in the correspondence",
